@@ -72,7 +72,7 @@ func drawC11(t *rapid.T) c11Case {
 			s.Pad = rapid.SampledFrom([]int{200, 255, 256, 1000, 3000}).Draw(t, l+"pad")
 		case 1, 2:
 			// boundary: attribute block within a few octets of the single-route limit
-			s.PadFit = rapid.SampledFrom([]int{1, 2, 3, 4, 5, 6, 8, 9, 10, 12, 16, 40, 64, -1, -2, -5, -9, -40, -1000}).Draw(t, l+"fit")
+			s.PadFit = rapid.SampledFrom([]int{99, 99, 1, 2, 3, 4, 5, 6, 8, 9, 10, 12, 16, 40, 64, -1, -2, -5, -9, -40, -1000}).Draw(t, l+"fit")
 		}
 		s.SameKey = rapid.IntRange(0, 4).Draw(t, l+"samekey") == 0
 		c.Sets = append(c.Sets, s)
@@ -248,7 +248,11 @@ func runC11(c c11Case, st *verifkit.Stats) *verifkit.Failure {
 		}
 		base := c11SingleSize(fam, c11NLRI(fam, 0), c11Attrs(fam, s, 0), c11NextHops(fam, s), c.AddPath)
 		// padding attribute costs 4 (ext header) + pad when pad > 255, 3 + pad otherwise
-		want := limit - s.PadFit - base
+		fit := s.PadFit
+		if fit == 99 {
+			fit = 0 // exactly at the limit
+		}
+		want := limit - fit - base
 		pad := want - 4
 		if pad <= 255 {
 			pad = want - 3
